@@ -136,7 +136,6 @@ func tqCollectVocab(s *traceql_parser.TraceQLScript) tqVocab {
 }
 
 func genTraceDb(r *h.Rng, c tqctx, v tqVocab) []tqAttrRow {
-	zone := time.FixedZone("z", c.Zone)
 	var rows []tqAttrRow
 	nTraces := r.Range(1, 4)
 	for t := 0; t < nTraces; t++ {
@@ -146,9 +145,9 @@ func genTraceDb(r *h.Rng, c tqctx, v tqVocab) []tqAttrRow {
 			if r.Chance(20) {
 				ts = h.Pick(r, []int64{c.From - 1, c.From, c.To - 1, c.To, c.To + 1, c.From - 86400e9})
 			}
-			date := time.Unix(0, ts).In(zone).Format("2006-01-02")
+			date := time.Unix(0, ts).UTC().Format("2006-01-02") // the writer stores the UTC day
 			if r.Chance(5) {
-				date = time.Unix(0, ts).In(zone).Add(h.Pick(r, []time.Duration{-48 * time.Hour, 96 * time.Hour})).Format("2006-01-02")
+				date = time.Unix(0, ts).UTC().Add(h.Pick(r, []time.Duration{-48 * time.Hour, 96 * time.Hour})).Format("2006-01-02")
 			}
 			dur := h.Pick(r, v.durs)
 			if dur < 0 {
@@ -301,7 +300,7 @@ func c11Sem(r *h.Rng, res *h.Result, n int, maxSel int, replay *tqReplay) error 
 		c := genTqCtx(r)
 		c.RndMax, c.RndI, c.Cached = 0, 0, nil
 		ts := c.From
-		date := time.Unix(0, ts).In(time.FixedZone("z", c.Zone)).Format("2006-01-02")
+		date := time.Unix(0, ts).UTC().Format("2006-01-02")
 		featOverride = "over-64-conditions"
 		add("{"+strings.Join(parts, " || ")+"}", c, []tqAttrRow{{Date: date, Key: "k65", Val: "65", Trace: "t0", Span: "s0", Ts: ts, Dur: 1}})
 		featOverride = ""
